@@ -1939,8 +1939,10 @@ def remove_dead_ifs(source: str) -> str:
                 # We skip adding it to ifs, so that will be the result.
 
             if any_if_always_false:
+                # Nothing is ever produced, whatever the other generators are
                 any_comprehension_modified = True
-                continue
+                generators.clear()
+                break
 
             if len(ifs) < len(comprehension.ifs):
                 replacement = ast.comprehension(
